@@ -89,6 +89,13 @@ def covered (I : Impl) (lr : LReq) : Bool :=
     limits of the Envoy proxy itself). The body does not count: `fits l { lr with body := b } = fits l lr`. -/
 def fits (l : Limits) (lr : LReq) : Bool := lr.headLength ≤ headerBudget l
 
+/-- A logical request a gateway can describe in `X-Forwarded-*` headers so that the decision service reads it back:
+    method and host are not empty (an empty header falls back to the gateway's own request), the path is in origin
+    form (`/…`, not `//…`, which `url.Parse` reads as an authority) and the request target contains no `#` (`url.Parse`
+    cuts a fragment off; a client does not send one). -/
+def forwardable (lr : LReq) : Bool :=
+  !lr.method.isEmpty && !lr.host.isEmpty && originForm lr.rawPath && !lr.target.contains '#'
+
 /-! ## Running a rule set on the view -/
 
 /-- the finalizers, all reading the same view `o` -/
